@@ -195,6 +195,9 @@ func runC05Race(s *kernel.Sim) {
 	}
 	defer seams.CloseStore(s, inner)
 	ys := seams.NewYieldStore(s, inner, driver)
+	if s.Choose("sched", 3) != 0 {
+		s.Sched = kernel.SchedPriority
+	}
 	s.SetYield("store", 3)
 	s.SetYield("storeret", 2)
 	s.SetYield("op", 3)
